@@ -225,7 +225,7 @@ def run(chk):
     cases.append(([('scu', ['1.2.3.4']), ('scu', ['1.2.3.5', '1.2.3.4'])], [0, 0, 0]))
     cases.append(([('scu', ['1.2.3.4']), ('scu', ['1.2.3.5', '1.2.3.4'])], [0, 0, 1]))
     cases.append(([('scu', ['1.2.3.4']), ('scu', ['1.2.3.5', '1.2.3.4'])], [1, 0, 0]))
-    for _ in range(60 if tier == 'quick' else 1500):
+    for _ in range(60 if tier == 'quick' else 8000):
         sizes = [rnd.choice([0, 1, 2, 5, 20]) for _ in range(rnd.randrange(1, 6))]
         calls = [(rnd.choice(['scu', 'scu', 'scp']), classes(s_, 100 + k)) for k, s_ in enumerate(sizes)]
         cases.append((calls, [rnd.choice([0, 0, 1, 2, 3, 4, None]) for _ in range(rnd.randrange(1, 7))]))
